@@ -405,8 +405,8 @@ def eng_prop(pid, fams, extra=(), nq=60, nt=900):
     return f
 
 
-eng_prop("C01", ["flow", "upg"])
-eng_prop("C02", ["flow", "poll"])
+eng_prop("C01", ["flow", "upg"], extra=("direct",))
+eng_prop("C02", ["flow", "poll"], extra=("direct",))
 eng_prop("C03", ["life"], extra=("direct",), nq=90)
 eng_prop("C04", ["life"], nq=90)
 BEAT_CFG = ("SPECIFICATION Spec\nCONSTANTS PI = %d PT = %d MaxNow = %d Delays = %s\n"
